@@ -768,7 +768,7 @@ func init() {
 					}
 				}}
 			// the same view through every entry point: a loaded page through String and Response, a file, a string
-			entryStrings := []string{"50% off", "100%", "%d %s %v %%", "a%!b(MISSING)", "plain", "é中😀 & <b>", "%", "tab\tnew\nline", ""}
+			entryStrings := []string{"50% off", "100%", "%d %s %v %%", "a%!b(MISSING)", "plain", "é中😀 & <b>", "%", "tab\tnew\nline", "", "a & b < c > \"q\" 'r' &amp; &#39;"}
 			entries := core.Section{Name: "entry-points", Exhaustive: true, N: len(entryStrings),
 				Run: func(c *core.Ctx, i int) {
 					str := entryStrings[i]
@@ -786,7 +786,10 @@ func init() {
 					if exp := "<" + str + ">|7|" + str + "|" + str + ", " + str + "|" + fmt.Sprint(utf8.RuneCountInString(str)); want.Out != exp {
 						c.Violation("entry-point:string", fmt.Sprintf("EvaluateString gave %q, want %q", want.Out, exp), map[string]any{"s": str})
 					}
-					files := map[string]string{"page.tw": src, "layouts/l.tw": "L[@reserve(\"b\")]", "with.tw": "@use(\"~l\")@insert(\"b\")" + src + "@end"}
+					files := map[string]string{"page.tw": src, "layouts/l.tw": "L[@reserve(\"b\")]", "with.tw": "@use(\"~l\")@insert(\"b\")" + src + "@end",
+						// the values handed on as insert arguments, component arguments and in slot bodies
+						"arg.tw": "@use(\"~l\")@insert(\"b\", s)", "argfield.tw": "@use(\"~l\")@insert(\"b\", u.name)", "argelem.tw": "@use(\"~l\")@insert(\"b\", xs[1])",
+						"components/c.tw": "C[{{ v }}|{{ w }}|@slot]", "comp.tw": "@component(\"~c\", {v: s, w: xs[0]})@slot{{ u.name }}@end@end"}
 					tpl, err := loadTree(c, "c12entry", files, ".tw")
 					if err != nil || tpl == nil {
 						if err != nil {
@@ -794,7 +797,7 @@ func init() {
 						}
 						return
 					}
-					for page, w := range map[string]string{"page": want.Out, "with": "L[" + want.Out + "]"} {
+					for page, w := range map[string]string{"page": want.Out, "with": "L[" + want.Out + "]", "arg": "L[" + str + "]", "argfield": "L[" + str + "]", "argelem": "L[" + str + "]", "comp": "C[" + str + "|" + str + "|" + str + "]"} {
 						if o, _ := renderPage(c, tpl, page, data); !o.Panicked && (o.Err != nil || o.Out != w) {
 							c.Violation("entry-point:String", fmt.Sprintf("Template.String(%s) gave %s, want %q", page, o.Describe(), w), map[string]any{"s": str})
 						}
